@@ -63,8 +63,9 @@ def order_insensitive_loop(B, iter_bb):
     nexts = []
     for bb, t in B.calls_to("iter::Iterator::next"):
         for o in M.trace(B, t["args"][0], ITER_IDENT):
-            if o.kind == "call" and o.bb == iter_bb:
+            if (o.kind == "call" and o.bb == iter_bb) or any(st[0] == "call" and st[2] == iter_bb for st in o.steps):
                 nexts.append((bb, t))
+                break
     if not nexts:
         # iterator adaptor form: `map.values().for_each(|f| f.flag.store(CONST))`
         for bb, t in B.calls_to("iter::Iterator::for_each"):
@@ -76,6 +77,11 @@ def order_insensitive_loop(B, iter_bb):
     cyc = cycle_blocks(B, nbb)
     if not cyc:
         return False, "no loop found"
+    # a transfer loop: each (key, value) of the hash map is put into another map (`insert`, `entry(k).or_insert(v)`) and nothing
+    # else happens: the keys of one map are distinct, so every element is handled independently of the others and of the order
+    transfer = _transfer_loop(B, cyc, nbb, nt)
+    if transfer:
+        return True, "loop body only moves each (key, value) into another map (keys are distinct: order-independent)"
     # the iterator must not escape: its only consumer is that next()
     for x in sorted(cyc):
         t = B.term(x)
@@ -318,3 +324,28 @@ def iteration_verdict(F, fn, site):
         if callers:
             why = "; ".join(v[1] for v in verdicts if not v[0])[:200]
     return ok, why
+
+
+def _transfer_loop(B, cyc, nbb, nt):
+    """every call in the loop is next(), HashMap::entry / Entry::or_insert / HashMap::insert / contains_key (+ clones / derefs),
+    the key and the value handed over are the components of the element just taken, and the loop does not leave the function"""
+    elem = nt["dest"]["l"]
+    allowed = ("iter::Iterator::next", "HashMap::<K, V, S, A>::entry", "Entry::<'a, K, V, A>::or_insert", "HashMap::<K, V, S, A>::insert",
+               "HashMap::<K, V, S, A>::contains_key", "clone::Clone::clone", "ops::Deref::deref", "ops::DerefMut::deref_mut")
+    n_put = 0
+    for x in sorted(cyc):
+        t = B.term(x)
+        if t.get("k") in ("return", "yield"):
+            return False
+        if t.get("k") != "call":
+            continue
+        d = M.Body.callee_decl(t) or ""
+        if not d.endswith(allowed):
+            return False
+        if d.endswith(("::entry", "::insert", "::or_insert")):
+            n_put += 1
+            for a in t["args"][1:]:
+                os_ = M.trace(B, a, M.IDENTITY_CALLS)
+                if not os_ or not all(o.kind == "call" and o.bb == nbb for o in os_):
+                    return False   # something other than the element's own key / value is stored
+    return n_put > 0
